@@ -49,6 +49,7 @@ inductive Op where
   | reload (target : Nat) (n : Int)     -- reload_object(target); its create() does set_heart_beat(n) again
   | living                              -- enable_commands()
   | burn                                -- use up evaluation cost
+  | rp                                  -- replace_program ("/c11/base"): the inherited program without heart_beat()
   deriving Repr, BEq
 
 structure World where
@@ -68,6 +69,8 @@ structure World where
   living : List Nat := []               -- O_ENABLE_COMMANDS
   cg : Option Nat := none               -- command_giver
   ec : Bool := true                     -- eval_cost == CONFIG_INT (__MAX_EVAL_COST__)
+  rp : List Nat := []                   -- obj_list_replace (head = newest entry)
+  replaced : List Nat := []             -- objects whose program has been replaced
   crashed : Bool := false
 
 abbrev Scripts := Nat → Nat → List Op
@@ -192,6 +195,11 @@ def stepOpBasic (w : World) (self : Nat) (op : Op) : World × List Ev × Status 
       (w2, [.reload self t n (queryHeartBeat w2 t)], .ok)
   | .living => ({ w with living := self :: w.living, cg := some self }, [.living self], .ok)
   | .burn => ({ w with ec := false }, [.burn self], .ok)
+  | .rp =>
+    -- lib/efuns/replace_program.c f_replace_program: one entry per object in obj_list_replace, new ones at the head;
+    -- the program is swapped by replace_programs() at the top of the backend loop
+    if self < 2 || w.replaced.contains self then (w, [.rpNone self], .ok)
+    else ({ w with rp := if w.rp.contains self then w.rp else self :: w.rp }, [.rp self], .ok)
 
 /-- run a script; stops at the first error or when the object is destructed (by itself, or as an inventory item
     of the object it destructed) -/
@@ -324,6 +332,16 @@ def round (sc : Scripts) : Nat → World → World × List Ev
           if (cursorStep w1).2 then (finish (cursorStep w1).1, [.tickEnd])
           else round sc fuel (cursorStep w1).1
 
+/-- lib/efuns/replace_program.c replace_programs(), one entry: `r_ob->ob->prog = r_ob->new_prog` (a program without
+    heart_beat function: `prog->heart_beat == -1` from now on).  Destructed objects are not observable. -/
+def rpStep (acc : World × List Ev) (o : Nat) : World × List Ev :=
+  if acc.1.alive o then
+    ({ acc.1 with nofn := o :: acc.1.nofn, replaced := o :: acc.1.replaced }, acc.2 ++ [.rpDone o])
+  else acc
+
+/-- top of the backend() loop: remove_destructed_objects() -> `if (obj_list_replace) replace_programs ();` -/
+def applyRp (w : World) : World × List Ev := w.rp.foldl rpStep ({ w with rp := [] }, [])
+
 /-- does timer_flags have TIMER_FLAG_HEARTBEAT (what the harness prints as `tickbegin` / `tickbegin off`) -/
 def hbOn (tf : Int) : Bool := decide ((tf / (NV.Gen.C11.timerFlagHeartbeat : Nat)) % 2 ≠ 0)
 
@@ -331,7 +349,7 @@ def hbOn (tf : Int) : Bool := decide ((tf / (NV.Gen.C11.timerFlagHeartbeat : Nat
     `NV.Gen.C11.roundEntry` = everything up to the while loop (heart_beat_flag = 0, num_hb_to_do = num_hb_objs, the
     `(timer_flags & TIMER_FLAG_HEARTBEAT) && num_hb_to_do > 0` guard, heart_beat_index = 0), `roundSkip` = what is left
     when the guard fails (heart_beat_index and num_hb_to_do keep their values, current_heart_beat = 0) -/
-def tick (sc : Scripts) (w : World) : World × List Ev :=
+def tickCore (sc : Scripts) (w : World) : World × List Ev :=
   let e := NV.Gen.C11.roundEntry (w.hbs.length : Int) w.idx w.todo (if w.flag then 1 else 0) w.tflags
   let begin : Ev := if hbOn w.tflags then .tickBegin else .tickOff
   let w : World := { w with flag := decide (e.2.2.1 ≠ 0), idx := e.1, todo := e.2.1 }
@@ -339,6 +357,13 @@ def tick (sc : Scripts) (w : World) : World × List Ev :=
     match round sc w.hbs.length w with
     | (w', evs) => (w', begin :: evs)
   else (leave w (NV.Gen.C11.roundSkip w.idx w.todo (curInt w)), [begin, .tickEnd])
+
+/-- one pass of the backend() loop with the timer fired: pending program replacements, then call_heart_beat -/
+def tick (sc : Scripts) (w : World) : World × List Ev :=
+  match applyRp w with
+  | (w1, e1) =>
+    match tickCore sc w1 with
+    | (w2, e2) => (w2, e1 ++ e2)
 
 /-- top-level commands of a case -/
 inductive Cmd where
